@@ -84,7 +84,7 @@ fn delivery_strategy(kind: Kind) -> BoxedStrategy<Delivery> {
     }
 }
 
-fn case_strategy() -> BoxedStrategy<Case> {
+pub fn case_strategy() -> BoxedStrategy<Case> {
     prop_oneof![2 => Just(Kind::Pad), 1 => Just(Kind::Tx), 1 => Just(Kind::Reg)]
         .prop_flat_map(|kind| {
             (
@@ -350,7 +350,7 @@ impl World {
     }
 }
 
-fn check(case: &Case, ctx: &mut Ctx) {
+pub fn check(case: &Case, ctx: &mut Ctx) {
     let kind = case.kind;
     let key = match kind {
         Kind::Pad | Kind::Chunk => fix::scratchpad_key(OWNER),
@@ -534,7 +534,7 @@ fn mix_delivery(kind: u8) -> BoxedStrategy<Delivery> {
     }
 }
 
-fn mix_strategy() -> BoxedStrategy<MixCase> {
+pub fn mix_strategy() -> BoxedStrategy<MixCase> {
     (0u8..3)
         .prop_flat_map(|first| {
             let setup_path = prop_oneof![Just(Path::Paid), Just(Path::Replicated)];
@@ -577,7 +577,7 @@ fn observe_any(w: &mut World) -> Obs {
     }
 }
 
-fn check_mix(case: &MixCase, ctx: &mut Ctx) {
+pub fn check_mix(case: &MixCase, ctx: &mut Ctx) {
     let key = fix::scratchpad_key(OWNER);
     if key != fix::transaction_key(OWNER) {
         // the addressing scheme no longer maps the kinds to one key: nothing to check
@@ -666,5 +666,7 @@ pub fn run(cfg: RunCfg) {
         "an owner's scratchpad, transaction set and the chunk of the owner's public-key bytes share one record key: 1-2 valid deliveries of one kind establish the record, then 1..5 deliveries of the other kinds (paid / unpaid / replicated) and of the same kind; the stored record must never be replaced by another kind, shrink or regress. non-trivial: >= 1 delivery of another kind after the record is established",
         mix_strategy, check_mix
     );
+    vh_core::fuzz_section!(rep, "updates", case_strategy, check, "sec_node", "node", 8_000, 300, 12);
+    vh_core::fuzz_section!(rep, "same_key_other_kind", mix_strategy, check_mix, "sec_node", "node", 3_000, 200, 8);
     rep.finish();
 }
